@@ -354,6 +354,12 @@ class SubscribableMixin:
                 if ".get#" not in str(e):
                     raise
                 self.sim.record("sub_error", sig=self.name, cb=_cbname(f), exc=type(e).__name__)
+            except Exception as e:
+                # ... and an injected failure of a document subscriber that the engine's monitor callback ran into
+                # (the monitor emits its event from this thread): logged by the control-system layer as well
+                if type(e).__name__ != "CallbackError":
+                    raise
+                self.sim.record("sub_error", sig=self.name, cb=_cbname(f), exc=type(e).__name__)
             if hasattr(f, "_should_suspend") and hasattr(f, "tripped"):
                 # observation point for the suspender properties: state after this value
                 self.sim.record(
